@@ -87,4 +87,20 @@ def RefEnv {V : Type} (S : Sem V) (sg' : Subgraph) (e0' e0 : Env V) : Prop :=
 def AgreeOff {V : Type} (sg' : Subgraph) (e e' : Env V) : Prop :=
   ∀ t, t ∉ insInputs sg' → t ∉ insOutputs sg' → e t = e' t
 
+/-- `useOK insOuts avail ops`: every operator of `ops` reads a result of an inserted operator only
+    if that result is available, i.e. in `avail` or produced by an inserted operator earlier in `ops` -/
+def useOK (insOuts : List Int) : List Int → List Op → Bool
+  | _, [] => true
+  | avail, p :: ps =>
+    p.inputs.all (fun x => !insOuts.contains x || avail.contains x) &&
+    useOK insOuts (if p.orig.isNone then p.outputs ++ avail else avail) ps
+
+/-- **ordering**: every operator reading a tensor `n ∈ insOutputs sg'` occurs after an inserted
+    operator producing `n` -/
+def insBeforeUse (sg' : Subgraph) : Bool := useOK (insOutputs sg') [] sg'.ops
+
+/-- graph outputs are neither operands nor results of inserted operators -/
+def outputsClean (sg' : Subgraph) : Bool :=
+  sg'.outputs.all (fun t => !(insInputs sg').contains t && !(insOutputs sg').contains t)
+
 end Eval
